@@ -405,6 +405,28 @@ def _api_interleaved_readers(src, dest):
             treeoutput.export(t, f, boyd_split_numbering=True)
 
 
+def _api_stagewise(src, dest):
+    """API history: the treebank is processed stage by stage - every tree is analysed (gap degrees) and offered to
+    the bracket writer (which refuses the discontinuous ones), then root_attach runs on all trees, then head
+    marking on all, then boyd_split on all, then raising on all; in the end every tree, now continuous, is written
+    in bracket format."""
+    import io as _io
+    from trees import treeinput, treeoutput, transform, treeanalysis
+    trees_ = list(treeinput.export(src, 'utf-8', quiet=True))
+    task = treeanalysis.GapDegree()
+    for t in trees_:
+        task.run(t)
+        try:
+            treeoutput.brackets(t, _io.StringIO())
+        except ValueError:
+            pass
+    for name in ('root_attach', 'negra_mark_heads', 'boyd_split', 'raising'):
+        trees_ = [getattr(transform, name)(t) for t in trees_]
+    with _io.open(dest, 'w', encoding='utf-8') as f:
+        for t in trees_:
+            treeoutput.brackets(t, f)
+
+
 EMPTY_SENTENCE_OP = 6        # plain export -> export conversion also gets a sentence without tokens
 CONCAT_OPS = [
     ('export-gzcat', ['transform', '{src}', '{dest}'], 'export', 'dest'),
@@ -416,6 +438,7 @@ CONCAT_OPS = [
     ('export', _api_list_then_transform, 'export', 'dest'),
     ('export', _api_interleaved_readers, 'export', 'dest'),
     ('export', ['transform', '{src}', '{dest}'], 'export', 'dest'),
+    ('export', _api_stagewise, 'brackets-noid', 'dest'),
     ('export', ['transform', '{src}', '{dest}', '--dest-format', 'tigerxml', '--trans', 'root_attach', 'negra_mark_heads',
                 'boyd_split', 'raising'], 'tigerxml', 'dest'),
     ('brackets', ['transform', '{src}', '{dest}', '--src-format', 'brackets', '--dest-format', 'brackets',
@@ -626,6 +649,7 @@ def plan(tier, seed):
     for i in range(0, len(hists), per):
         chunks.append({'kind': 'hist', 'hists': hists[i:i + per]})
     chunks.append({'kind': 'bfs', 'depth': 3 if tier == 'quick' else 5})
+    chunks.append({'kind': 'apirepeat'})
     disc_pool, cont_pool = concat_pool()
     for op_i in range(len(CONCAT_OPS)):
         chunks.append({'kind': 'concat', 'op': op_i})
@@ -641,7 +665,7 @@ def plan(tier, seed):
                 '(2) BFS over hidden states (mechanical snapshot of all module-level objects, function attributes, '
                 'defaults, closure cells and class attributes of trees.*): every operation applied in every reachable '
                 'hidden state; (3) op(A+B) = op(A) (+) op(B) for every ordered pair from a treebank pool x %d '
-                'operations; (4) every operation under %d PYTHONHASHSEED values in real subprocesses. '
+                'operations (three of them API histories: read all then transform last-to-first; two interleaved readers; stage-wise processing with analysis and refused writes in between); (4) every operation under %d PYTHONHASHSEED values in real subprocesses; (5) binarization called twice with the same grammar and the same options dict object. '
                 'non-trivial = histories of length >= 2, concatenation pairs, determinism runs'
                 % (L, len(names), '' if tier == 'quick' else ' (length 3: all histories whose first two operations are among the 8 state-relevant ones)',
                    len(CONCAT_OPS), nseeds),
@@ -658,7 +682,49 @@ def plan(tier, seed):
     }
 
 
+def check_api_repeat():
+    """(5) The same API call made twice with the SAME argument objects gives the same result: binarization of one
+    grammar object with one options dict (the only call of the tool that takes an options dict as an object)."""
+    from trees import grammar as G
+    out = []
+    disc_pool, _ = concat_pool()
+    n = 0
+    for bank in disc_pool:
+        if bank == [None]:
+            continue
+        g, lex = {}, {}
+        for mt in bank:
+            G.extract(_build_tree(mt), g, lex)
+        for opts in ({'v': 1, 'h': 1}, {'v': 2, 'h': 1, 'nofanout': True}, {'v': 1, 'h': 0, 'nofanout': True}, {'h': 2, 'v': 0}):
+            for reordering in (G.reordering_none, G.reordering_optimal):
+                live = dict(opts)
+                n += 1
+                try:
+                    r1 = G.binarize(g, markov_opts=live, reordering=reordering)
+                    r2 = G.binarize(g, markov_opts=live, reordering=reordering)
+                    r3 = G.binarize(g, markov_opts=dict(opts), reordering=reordering)
+                    norm = lambda r: sorted((f, l, sorted(v.items())) for f, ls in r.items() for l, v in ls.items())
+                    if not (norm(r1) == norm(r2) == norm(r3)):
+                        out.append({'kind': 'history-dependent', 'where': 'grammar.binarize', 'case': {'api_repeat': True},
+                                    'detail': 'binarize called twice with the same grammar and the same options dict object %r gives '
+                                              'different grammars (labels %r vs %r vs fresh dict %r)'
+                                              % (opts, sorted(set(f[-1] for f in r1))[:4], sorted(set(f[-1] for f in r2))[:4],
+                                                 sorted(set(f[-1] for f in r3))[:4]),
+                                    'what': 'binarize: the second call with the same argument objects differs from the first'})
+                except Exception as e:
+                    out.append({'kind': 'exception', 'where': 'grammar.binarize', 'case': {'api_repeat': True},
+                                'detail': '%s: %s' % (type(e).__name__, e), 'what': 'binarize raised'})
+    return out, n
+
+
+def _build_tree(mt):
+    from ..bridge import build
+    return build(mt)
+
+
 def check_case(case):
+    if 'api_repeat' in case:
+        return check_api_repeat()[0]
     if 'history' in case:
         return check_history(case['history'])
     if 'concat' in case:
@@ -679,6 +745,14 @@ def run_chunk(chunk):
             for v in vs:
                 res.violation(v['kind'], v['where'], v['case'], v['detail'], v['what'])
         res.sample({'history': chunk['hists'][-1]})
+    elif kind == 'apirepeat':
+        vs, n = check_api_repeat()
+        res.evals += n
+        res.nontrivial += n
+        res.transitions += 3 * n
+        res.outcome(('apirepeat', len(vs)))
+        for v in vs:
+            res.violation(v['kind'], v['where'], v['case'], v['detail'], v['what'])
     elif kind == 'bfs':
         check_bfs(chunk['depth'], res)
         res.evals += res.transitions
